@@ -103,7 +103,7 @@ func (s *Service) GetHandler(name string) Handler {
 
 // Handle the reqeust and returns the response.
 func (s *Service) Handle(ctx context.Context, request []byte) ([]byte, error) {
-	response, err := s.ioManager.Handler().(NextIOHandler)(ctx, request)
+	response, err := s.handle(ctx, request)
 	if len(response) == 0 {
 		serviceContext := GetServiceContext(ctx)
 		if err == nil {
@@ -112,6 +112,17 @@ func (s *Service) Handle(ctx context.Context, request []byte) ([]byte, error) {
 		return s.Codec.Encode(err, serviceContext)
 	}
 	return response, err
+}
+
+// handle calls the IO handler chain. A panic in an IO plugin or in the decoding of the
+// request (Process only guards the invocation itself) becomes the error of this call.
+func (s *Service) handle(ctx context.Context, request []byte) (response []byte, err error) {
+	defer func() {
+		if p := recover(); p != nil {
+			response, err = nil, NewPanicError(p)
+		}
+	}()
+	return s.ioManager.Handler().(NextIOHandler)(ctx, request)
 }
 
 // Process the reqeust and returns the response.
